@@ -65,6 +65,12 @@ var c19Bodies = func() [][]byte {
 		attr(0x7FFF, nil),
 		append(attr(0x8020, xor4), attr(0x8028, []byte{1, 2, 3, 4})...),
 		append(attr(0x0006, []byte("user")), attr(0x8020, xor4)...),
+		// something BEHIND the attributes that are meant to come last (a relay that appends, RFC 5389 15.4/15.5:
+		// "ignore", not "refuse"): the decoder accepts such messages, and their type is still their type word
+		append(attr(0x8028, []byte{1, 2, 3, 4}), attr(0x8022, []byte("c19"))...),
+		append(attr(0x0008, make([]byte, 20)), attr(0x0006, []byte("user"))...),
+		append(append(attr(0x0008, make([]byte, 20)), attr(0x8028, []byte{1, 2, 3, 4})...), attr(0x0020, xor4)...),
+		append(attr(0x8028, []byte{1, 2, 3, 4}), attr(0x0008, make([]byte, 20))...),
 	}
 }()
 
